@@ -140,6 +140,25 @@ def ig_db(b, d, header_text, names, promiscuous, with_enum):
     r, p = tools.interrogate(b, [h], sub, opts=opts)
     if r.timed_out:
         return None, set(), "timeout"
+    if r.died() and not _err_lines(r.err, "t.h"):
+        # the tool aborted (assertion) without naming a line: the offending class is the last one of the shortest
+        # dying prefix (classes only refer to earlier classes, so every prefix is a valid header)
+        lines = header_text.rstrip("\n").split("\n")
+        head, body = lines[:cg.PRELUDE_LINES], lines[cg.PRELUDE_LINES:]
+
+        def dies(k):
+            open(h, "w").write("\n".join(head + body[:k]) + "\n" + (ig_enum_block(names[:k]) if with_enum else ""))
+            rr, _p = tools.interrogate(b, [h], sub, opts=opts)
+            return rr.died()
+        lo, hi = 0, len(body)
+        if len(body) == len(names) and not dies(0):
+            while hi - lo > 1:
+                mid = (lo + hi) // 2
+                if dies(mid):
+                    hi = mid
+                else:
+                    lo = mid
+            return None, {cg.PRELUDE_LINES + hi}, "interrogate aborted on class " + names[hi - 1] + ": " + r.how()
     if r.rc != 0 or r.died():
         return None, _err_lines(r.err, "t.h"), "interrogate: " + r.how() + " " + r.err[-300:]
     rr, dd = tools.idbdump([p["od"]])
@@ -263,7 +282,7 @@ class Judge:
         """variants: list of models (class names unique across the list).  need: subset of
         {'enum','pf','dbp','dbd'}.  -> list of per-variant results: None (rejected by g++ / tool) or
         {name: (gvals, views)}; plus stats dict."""
-        stats = dict(gxx_rejected=0, parser_rejected=0)
+        stats = dict(gxx_rejected=0, parser_rejected=0, tool_aborted=0)
         alive = list(range(len(variants)))
         models = [copy.deepcopy(v) for v in variants]
         result = [None] * len(variants)
@@ -323,7 +342,7 @@ class Judge:
             if not retry and ("enum" in need or "dbp" in need):
                 v, bad, prob = ig_db(self.b, d, text, names, True, "enum" in need)
                 if v is None:
-                    if drop(owners(bad), "parser_rejected"):
+                    if drop(owners(bad), "tool_aborted" if "aborted on class" in str(prob) else "parser_rejected"):
                         retry = True
                     else:
                         stats["tool_problem"] = prob
@@ -602,6 +621,8 @@ def cause_of(cat, what, got, via, feats):
     if over and (set(feats) & DEFAULTED.get(what, set())):
         # (an accessible defaulted member: `@protected`/`@private` ones are a matter of access, not of deletion)
         return "defaulted-member-that-is-deleted"
+    if what in ("cc", "copy-ctor") and "ctor-copy:dflt2" in bare:
+        return "copy-ctor-with-defaulted-extra-parameter-not-recognised"
     if what in ("cc", "copy-ctor") and over and "ctor-copy:nonconst" in bare:
         return "copy-ctor-taking-nonconst-ref"
     if "dtor:pure" in bare and via != "self" and ((what == "abs" and got == 1) or (ctorish and under)) \
@@ -665,6 +686,7 @@ def run_case(ctx, case):
     out, stats = judge.judge([model], {"enum", "pf", "dbp", "dbd"}, full=True)
     res.count("classes_rejected_by_reference", stats.get("gxx_rejected", 0))
     res.count("classes_rejected_by_parser", stats.get("parser_rejected", 0))
+    res.count("classes_dropped_tool_abort", stats.get("tool_aborted", 0))
     if out[0] is None:
         res.inconclusive = "tool problem: " + str(stats.get("tool_problem", "all classes rejected"))[:200]
         return res
